@@ -227,6 +227,24 @@ def run():
         expect("HalfLockSC.tla as the code is: IndInv is inductive and its hypothesis satisfiable (Apalache)",
                cc2.extra.get("inductive_invariant", [{}])[-1].get("holds") is True)
 
+    if shutil.which("tlapm"):
+        import re
+        from tlcrun import SPEC
+        d = os.path.join(WORK, "self_tlaps")
+        shutil.rmtree(d, ignore_errors=True)
+        os.makedirs(d)
+        src = open(os.path.join(SPEC, "HalfLockProof.tla")).read()
+        bad_src = src.replace("MODULE HalfLockProof", "MODULE HalfLockBad").replace(
+            "See(s) == seen' = [seen EXCEPT ![s] = @ \\/ inn[s] = {}]", "See(s) == seen' = [seen EXCEPT ![s] = TRUE]")
+        assert bad_src != src.replace("MODULE HalfLockProof", "MODULE HalfLockBad")
+        with open(os.path.join(d, "HalfLockBad.tla"), "w") as f:
+            f.write(bad_src)
+        p = subprocess.run(["timeout", "600", "tlapm", "--threads", "8", "HalfLockBad.tla"], cwd=d,
+                           stdout=subprocess.PIPE, stderr=subprocess.STDOUT, text=True, errors="replace")
+        m = re.search(r"(\d+)/(\d+) obligations failed", p.stdout)
+        expect("HalfLockProof.tla with a barrier that does not wait: TLAPS cannot prove the step", bool(m),
+               m.group(0) if m else "")
+
     bad = [n for n, ok in results if not ok]
     log("selftest: %d/%d demonstrations behaved as required" % (len(results) - len(bad), len(results)))
     return 0 if not bad else 2
